@@ -452,6 +452,29 @@ impl HintingInstance {
     }
 }
 
+/// Verification hook (off unless built with `--cfg googlefonts_fontations_verif`).
+#[cfg(googlefonts_fontations_verif)]
+impl HintingInstance {
+    /// Renders the logical state of an interpreter-based TrueType hinting
+    /// instance; `None` for the other kinds.
+    pub fn verif_state(&self) -> Option<crate::alloc::string::String> {
+        match &self.kind {
+            HinterKind::Glyf(instance) => Some(instance.verif_state()),
+            _ => None,
+        }
+    }
+
+    /// Names the kind of hinter held by this instance.
+    pub fn verif_kind(&self) -> &'static str {
+        match &self.kind {
+            HinterKind::None => "none",
+            HinterKind::Glyf(_) => "glyf",
+            HinterKind::Cff(_) => "cff",
+            HinterKind::Auto(_) => "auto",
+        }
+    }
+}
+
 #[derive(Clone)]
 enum HinterKind {
     /// Represents a hinting instance that is associated with an empty outline
